@@ -85,9 +85,10 @@ theorem pairwise_core_eq_model (yr ye : List Nat) (beta : ℚ) :
   simp only [PyM.equalOuter_self, PyM.logicalNot_eq, PyM.logicalAnd_eqMat, PyM.sumBool_eq, PyM.len_eq, PyM.divNp_eq,
     PyM.f_measure_np_eq]
   by_cases hl : yr.length = ye.length
-  · simp only [if_pos hl, if_neg (not_not.2 hl), ok_bind]
+  · simp only [if_pos hl, if_pos hl.symm, if_neg (not_not.2 hl), ok_bind]
+    try rw [PyM.matAnd_comm (eqMat ye) (eqMat yr)]      -- `np.logical_and` with its operands exchanged
     refine pairs_shape beta ?_ ?_ ?_ <;> (try push_cast) <;> (try ring)
-  · simp only [if_neg hl, error_bind]
+  · simp only [if_neg hl, if_neg (Ne.symm hl), error_bind]
     rw [if_pos hl]
 
 example : Mir.Gen.segment.pairwise_core [0, 0, 1, 1] [0, 1, 1, 1] 1 = .ok (.val (1/3), .val (1/2), .val (2/5)) ∧
@@ -105,9 +106,11 @@ theorem rand_index_core_eq_model (yr ye : List Nat) :
   simp only [PyM.equalOuter_self, PyM.logicalNot_eq, PyM.logicalAnd_eqMat, PyM.logicalAnd_not_eqMat,
     PyM.logicalOr_eqMat, PyM.sumBool_eq, PyM.len_eq, PyM.divNp_eq]
   by_cases hl : yr.length = ye.length
-  · simp only [if_pos hl, if_neg (not_not.2 hl), ok_bind, PyM.matNot_zipWith_or]
+  · simp only [if_pos hl, if_pos hl.symm, if_neg (not_not.2 hl), ok_bind, PyM.matNot_zipWith_or]
+    try rw [PyM.matAnd_comm (eqMat ye) (eqMat yr)]      -- `np.logical_and` with its operands exchanged
+    try rw [PyM.matAnd_comm (matNot (eqMat ye)) (matNot (eqMat yr))]
     refine rand_shape ?_ ?_ <;> (try push_cast) <;> (try ring)
-  · simp only [if_neg hl, error_bind]
+  · simp only [if_neg hl, if_neg (Ne.symm hl), error_bind]
     rw [if_pos hl]
 
 example : Mir.Gen.segment.rand_index_core [0, 0, 1, 1] [0, 1, 1, 1] = .ok (.val (1/2)) ∧
